@@ -87,6 +87,8 @@ type Enc struct {
 	// replay support: named terms whose model values describe a concrete failing input
 	Witness []WitTerm
 	Shaping []*smt.Term // constraints that keep a counterexample executable (lengths <= N)
+	quantCache map[int]bool
+	Prop       string // property being checked ("" / "all": every clause is active)
 	loopFramed map[*ssa.BasicBlock][]loopFrame
 	loopAlloc  map[*ssa.BasicBlock]*smt.Term
 	phiEntry   map[*ssa.Phi]*smt.Term
@@ -97,6 +99,25 @@ type Enc struct {
 type WitTerm struct {
 	Name string
 	T    *smt.Term
+}
+
+// active: a clause tagged with properties takes part in this run only if it carries the property being checked.
+// Untagged clauses are always active. Dropping assumptions is sound; a clause needed by an obligation must carry its tags.
+func (e *Enc) active(props []string) bool {
+	if e.Prop == "" || e.Prop == "all" || len(props) == 0 {
+		return true
+	}
+	return hasProp(props, e.Prop)
+}
+
+func (e *Enc) activeClauses(cs []*Clause) []*Clause {
+	var out []*Clause
+	for _, c := range cs {
+		if e.active(c.Props) {
+			out = append(out, c)
+		}
+	}
+	return out
 }
 
 func (e *Enc) addWitness(name string, t *smt.Term) {
@@ -545,7 +566,41 @@ func (e *Enc) safety(fr *Frame, st *State, what string, pos token.Pos, cond *smt
 }
 
 func (e *Enc) assume(st *State, cond *smt.Term) {
+	// A quantified assumption is kept as a top-level guarded fact "reach at this point => cond" instead of being
+	// conjoined to the path condition: path conditions are disjoined at control-flow merges, and quantified formulas
+	// buried under disjunctions are what the solvers handle worst. The two encodings are equivalent (passive form:
+	// every variable is assigned once, so the path condition of this point is a formula over global constants).
+	if e.hasQuant(cond) {
+		if cond.Op == "and" {
+			for _, a := range cond.Args {
+				e.assume(st, a)
+			}
+			return
+		}
+		e.Axioms = append(e.Axioms, e.C.Implies(st.Reach, cond))
+		return
+	}
 	st.Reach = e.C.And(st.Reach, cond)
+}
+
+func (e *Enc) hasQuant(t *smt.Term) bool {
+	if e.quantCache == nil {
+		e.quantCache = map[int]bool{}
+	}
+	if v, ok := e.quantCache[t.ID]; ok {
+		return v
+	}
+	r := t.Op == "forall" || t.Op == "exists"
+	if !r {
+		for _, a := range t.Args {
+			if e.hasQuant(a) {
+				r = true
+				break
+			}
+		}
+	}
+	e.quantCache[t.ID] = r
+	return r
 }
 
 func fnName(f *ssa.Function) string {
